@@ -1099,6 +1099,10 @@ func structuralObligation(w *World, ms *ModSets, st *Structural) *Obligation {
 						if f, ok := ci.Common().Value.(*ssa.Function); ok && matchCallee(st, f, nil) {
 							calls = true
 							sites++
+							// the call site itself is a go statement: `go target(...)` (no closure involved)
+							if g, isGo := in.(*ssa.Go); isGo && !allowed[funcKey(fn)] {
+								bad = append(bad, funcKey(fn)+" (started with go at "+w.pos(g.Pos())+")")
+							}
 						}
 					}
 				}
